@@ -28,6 +28,23 @@ FULL_FORMS = [             # go through Var.render
     ('html', '<dtml-var expr="x" fmt="html-quote">'),
     ('epfs', '%(x fmt=html-quote)s'),
     ('epfs', '%(x html_quote missing=M)s'),
+    # fmt=html-quote together with options that are identities for these values
+    ('html', '<dtml-var x fmt=html-quote null="">'),
+    ('html', '<dtml-var x fmt=html-quote missing="M">'),
+    ('html', '<dtml-var x fmt=html-quote size=100000>'),
+    ('html', '<dtml-var x fmt="html-quote" etc="..." size=100000>'),
+    ('html', '<!--#var x fmt=html-quote missing=""-->'),
+    ('epfs', '%(x fmt=html-quote missing=M)s'),
+    ('html', '<dtml-var name=x missing=M html_quote>'),
+]
+# the same insertion nested in blocks (the tag objects of nested blocks are built by a sub-template)
+NESTED_FORMS = [
+    ('html', '<dtml-if one><dtml-in seq>&dtml-x;</dtml-in></dtml-if>'),
+    ('html', '<dtml-in seq><dtml-in seq><dtml-var x html_quote></dtml-in></dtml-in>'),
+    ('html', '<dtml-with o><dtml-let z=one>&dtml-x;</dtml-let></dtml-with>'),
+    ('html', '<dtml-if zero>no<dtml-else><dtml-try><dtml-var x html_quote><dtml-except>E</dtml-try></dtml-if>'),
+    ('html', '<dtml-unless zero><dtml-in seq><dtml-in seq><dtml-if one>&dtml-x;</dtml-if></dtml-in></dtml-in></dtml-unless>'),
+    ('epfs', '%(if one)[%(in seq)[%(x html_quote)s%(in)]%(if)]'),
 ]
 PLAIN_FORMS = [
     ('html', '<dtml-var x>'),
@@ -52,9 +69,13 @@ def template(syntax, src, encoding=None):
     return t
 
 
+class _O:
+    pass
+
+
 def render(syntax, src, value, encoding=None):
     try:
-        return template(syntax, src, encoding)(x=value)
+        return template(syntax, src, encoding)(x=value, one=1, zero=0, seq=[1], o=_O())
     except Exception as e:  # noqa
         return ('EXC', type(e).__name__, str(e)[:80])
 
@@ -90,7 +111,7 @@ def run(res, tier, have_driver):
     r = common.rng('C03')
     res.rule = ('every single code point (quick: U+0000-2FFF + 6000 random; thorough: all 1,112,064) and random '
                 'strings over an alphabet dense in & < > " \' and multi-byte characters, through every insertion '
-                'form (8 simple-form spellings, 8 full-path spellings, 5 plain spellings; HTML/SSI/EPFS, name and '
+                'form (8 simple-form spellings, 15 full-path spellings incl. fmt=html-quote with identity options, 6 nested-block spellings, 5 plain spellings; HTML/SSI/EPFS, name and '
                 'expr); non-str values; bytes in 4 encodings; non-trivial = distinct value containing a special')
     res.exhaustive = tier == 'thorough'
     vals = gen_values(tier, r)
@@ -100,7 +121,7 @@ def run(res, tier, have_driver):
     for v in vals:
         want = html.escape(v, True)
         sf = [SIMPLE_FORMS[0]] + r.sample(SIMPLE_FORMS[1:], forms_n)
-        ff = r.sample(FULL_FORMS, forms_n + 1)
+        ff = r.sample(FULL_FORMS, forms_n + 1) + r.sample(NESTED_FORMS, 1)
         pf = r.sample(PLAIN_FORMS, 1)
         obs = {}
         for kind, forms in (('simpleH', sf), ('fullH', ff), ('plain', pf)):
@@ -172,7 +193,7 @@ def run(res, tier, have_driver):
             except UnicodeEncodeError:
                 continue
             want = html.escape(t, True)
-            for syn, src in SIMPLE_FORMS + FULL_FORMS:
+            for syn, src in SIMPLE_FORMS + FULL_FORMS + NESTED_FORMS:
                 if syn == 'epfs' and enc == 'utf-16':
                     pass
                 out = render(syn, src, b, encoding=enc)
